@@ -40,6 +40,7 @@ import (
 	metav1 "k8s.io/apimachinery/pkg/apis/meta/v1"
 	"k8s.io/apimachinery/pkg/runtime"
 	"k8s.io/apimachinery/pkg/types"
+	"k8s.io/apimachinery/pkg/watch"
 	"k8s.io/client-go/kubernetes/fake"
 	k8stesting "k8s.io/client-go/testing"
 	"k8s.io/klog"
@@ -507,6 +508,10 @@ type pipeCase struct {
 	// process (same ranges; vlan / gateway / subnet mask of these pools changed), the pods are bound AGAIN (their ips
 	// are reused) and the whole pipeline is checked against the pools of the configuration now in force.
 	Reload []poolSpec `json:"reload,omitempty"`
+	// Recreate: on the daemon's node every pod of the case is the NEXT INCARNATION of one and the same pod name
+	// (the previous one is deleted, the new one created under the same name with its own binding annotation) while
+	// the daemon's watch on pods lags: the ADD of the new incarnation must carry the new incarnation's ips.
+	Recreate bool `json:"recreate,omitempty"`
 }
 
 func ipStr(n uint32) string { return ax.U32ToIP(n).String() }
@@ -655,6 +660,7 @@ func genPipe(rng *rand.Rand, boundary bool) *pipeCase {
 		pc.NNets = 1
 	}
 	pc.ReqArgs = []string{"kubelet", "kubelet", "kubelet-ws", "with-stale-ipinfos"}[rng.Intn(4)]
+	pc.Recreate = len(pc.Pods) >= 2 && rng.Intn(3) == 0
 	// reload with changed parameters of one or more pools (same ranges)
 	if rng.Intn(5) < 2 {
 		changed := false
@@ -776,6 +782,17 @@ func (v *env) runPipe(line string) {
 	if err != nil {
 		v.r.Hit("pipe:galaxy-conf-rejected")
 		return
+	}
+	// the daemon's API server: List / Get are consistent, the WATCH lags (no event is delivered during the case)
+	gcli := fake.NewSimpleClientset()
+	gcli.PrependWatchReactor("pods", func(a k8stesting.Action) (bool, watch.Interface, error) {
+		return true, watch.NewFake(), nil
+	})
+	g.SetClient(gcli)
+	var prevTruth []ax.Rec
+	adds := 0
+	if pc.Recreate {
+		v.r.Hit("pipe:same-name-recreation-case")
 	}
 
 	phases := 1
@@ -961,6 +978,14 @@ func (v *env) runPipe(line string) {
 			// ---- stage: the daemon extracts common.* from the Binding's annotation
 			gpod := pod.DeepCopy()
 			gpod.Annotations = map[string]string{constant.ExtendedCNIArgsAnnotation: annotation}
+			gname := pod.Name
+			if pc.Recreate {
+				gname = "samename-0"
+			}
+			gpod.Name = gname
+			gpod.UID = types.UID(fmt.Sprintf("g-uid-%d-%d", phase, pi))
+			gpod.ResourceVersion = ""
+			gpod.Spec.NodeName = nodeName
 			var ifNames []string
 			switch pc.NetMode {
 			case "ann-comma":
@@ -983,10 +1008,10 @@ func (v *env) runPipe(line string) {
 
 			// ---- stage: request from kubelet through the real request decoder
 			cid := v.newCID()
-			reqArgs := fmt.Sprintf("IgnoreUnknown=1;K8S_POD_NAMESPACE=%s;K8S_POD_NAME=%s;K8S_POD_INFRA_CONTAINER_ID=%s", pod.Namespace, pod.Name, cid)
+			reqArgs := fmt.Sprintf("IgnoreUnknown=1;K8S_POD_NAMESPACE=%s;K8S_POD_NAME=%s;K8S_POD_INFRA_CONTAINER_ID=%s", pod.Namespace, gname, cid)
 			switch pc.ReqArgs {
 			case "kubelet-ws":
-				reqArgs = fmt.Sprintf("IgnoreUnknown = 1; K8S_POD_NAMESPACE=%s ;K8S_POD_NAME= %s;;K8S_POD_INFRA_CONTAINER_ID=%s;", pod.Namespace, pod.Name, cid)
+				reqArgs = fmt.Sprintf("IgnoreUnknown = 1; K8S_POD_NAMESPACE=%s ;K8S_POD_NAME= %s;;K8S_POD_INFRA_CONTAINER_ID=%s;", pod.Namespace, gname, cid)
 			case "with-stale-ipinfos":
 				reqArgs += `;ipinfos=[{"ip":"1.2.3.4/5","vlan":6,"gateway":"7.8.9.10"}]`
 			}
@@ -997,14 +1022,29 @@ func (v *env) runPipe(line string) {
 				v.r.Hit("pipe:request-rejected")
 				continue
 			}
+			// the previous incarnation of the name is deleted, this one created; then the daemon looks the pod up itself
+			gcli.CoreV1().Pods(gpod.Namespace).Delete(context.TODO(), gname, metav1.DeleteOptions{})
+			if _, err := gcli.CoreV1().Pods(gpod.Namespace).Create(context.TODO(), gpod, metav1.CreateOptions{}); err != nil {
+				v.r.Hit("pipe:daemon-side-create-failed")
+				continue
+			}
 			var nis []*cniutil.NetworkInfo
 			var rerr, aerr error
+			var apod *corev1.Pod
 			out = hx.Guard(60*time.Second, func() {
-				nis, rerr = g.VerifResolveNetworks(req, gpod)
+				apod, rerr = g.VerifGetPod(req.PodName, req.PodNamespace)
 				if rerr == nil {
-					_, aerr = g.VerifCmdAdd(req, gpod)
+					nis, rerr = g.VerifResolveNetworks(req, apod)
+				}
+				if rerr == nil {
+					_, aerr = g.VerifCmdAdd(req, apod)
 				}
 			})
+			adds++
+			if pc.Recreate && adds == 1 {
+				// a lazily started cache (if the daemon has one) gets the time to fill itself from the current state
+				time.Sleep(250 * time.Millisecond)
+			}
 			if out != "ok" {
 				v.violation("cmdadd-"+strings.SplitN(out, ":", 2)[0], "galaxy cmdAdd "+out, line)
 				v.dropState(cid)
@@ -1088,6 +1128,11 @@ func (v *env) runPipe(line string) {
 				v.r.Case(fmt.Sprintf("%s|%d|%s", items, ni, pc.ReqArgs), len(decoded) > 0)
 
 				// ---- MONITOR 1 (the property): what the plugin configures == what IPAM allocated and persisted
+				if f := ax.DiffField(truth, decoded); f != "" && pc.Recreate && prevTruth != nil && ax.DiffField(prevTruth, decoded) == "" {
+					v.violation("ipinfo-lost-or-changed:stale-pod", fmt.Sprintf("pod %s is the re-creation of a pod of the same name on this node: allocated and persisted for it %s, but the plugin decoded the PREVIOUS incarnation's %s (network %d, CNI_ARGS %q)",
+						gname, ax.Items(truth), ax.Items(decoded), ni, got), line)
+					continue
+				}
 				if f := ax.DiffField(truth, decoded); f != "" {
 					v.violation("ipinfo-lost-or-changed:"+f+sfx, fmt.Sprintf("pod %s network %d (%s): allocated %s, plugin decoded %q from CNI_ARGS %q",
 						pod.Name, ni, ifn, ax.Items(truth), verdict, got), line)
@@ -1111,6 +1156,7 @@ func (v *env) runPipe(line string) {
 						"last_delegate_CNI_ARGS": prev, "plugin_decoded": pipeOut[len(pipeOut)-1]})
 				}
 			}
+			prevTruth = truth
 			v.dropState(cid)
 		}
 	}
